@@ -8,12 +8,14 @@ MANIFEST = {
     "category": "proof",
     "technique": 'Lean 4 proof of span invariants + compiled-parser correspondence on gapped spans (both code generators)',
     "text": 'The span rule of __reduce is part of the driver model; error_spans_ordered/token_accounting prove spans on the stack are ordered, disjoint and contain their tokens under monotone token spans. @L/@R and the recursive-ascent backend are tied by compiled parsers whose actions render @L/@R on gapped, strictly increasing spans, compared with the model and with each other.',
-    "note": '@L/@R selection (emit_inline_action_code) is covered by correspondence; the start-state defect of the ascent backend was repaired (fa25893).',
+    "note": '@L/@R selection (emit_inline_action_code) is modelled (Props/C06Look: lookaround_spec per emitted function; the rule does not compose across inlining steps: known finding c06:lookaround-next-to-later-inlined-empty); the start-state defect of the ascent backend was repaired (fa25893).',
 }
 
 
 def run(ctx):
     lrfamily.obligations(ctx, MODULE, THEOREMS)
+    from checks import lowerpart
+    lowerpart.run_lookaround_part(ctx)
     lrfamily.driver_layer(ctx, "C06")
     lrfamily.compiled_layer(ctx, "C06")
     ctx.coverage.setdefault("trusted_base", []).extend(lrfamily.TRUST_LR)
